@@ -747,6 +747,10 @@ where
                 wait_for(token_future, job_futures.as_mut())
                     .await
                     .map_err(RedoError::opaque_error)?;
+                // The token may be the one a job of ours just gave back by exiting:
+                // let every finished job record its result before we decide
+                // whether to go on.
+                while let Some(Some(())) = job_futures.next().now_or_never() {}
                 let errored = {
                     let r = result.replace(Ok(()));
                     let errored = r.is_err();
